@@ -301,6 +301,8 @@ class Run:
         self.cov[key] = self.cov.get(key, 0) + n
 
     def hist(self, table, key, n=1):
+        if table in self.cov and not isinstance(self.cov[table], dict):
+            table += "_table"          # the name is already used for a plain counter
         t = self.cov.setdefault(table, {})
         t[key] = t.get(key, 0) + n
 
